@@ -804,6 +804,11 @@ func (pconf *Path) validate(
 		}
 	}
 
+	// the RTSP source indexes both ends of the range
+	if len(pconf.RTSPUDPSourcePortRange) != 2 {
+		return fmt.Errorf("'rtspUDPSourcePortRange' must contain exactly two ports")
+	}
+
 	if pconf.SRTReadPassphrase != "" {
 		err := checkSRTPassphrase(pconf.SRTReadPassphrase)
 		if err != nil {
